@@ -386,6 +386,46 @@ func c09gen(c *h.Ctx, yield func(*h.Case)) {
 		ops = append(ops, "c09 up 1", "c09 send "+[]string{"router", "raw", "sendto"}[r.Intn(3)]+" 1 1", "c09 conns 1")
 		emit("frozen-tls", ops...)
 	}
+	// the moment of tree propagation: the sender of the first message of a run dies before the
+	// survivor can ask it for the tree; the request fails; the sender restarts and sends again over
+	// the same tree: the survivor has to ask again, and everything parked has to be handled
+	for i := 0; i < c.Pick(10, 100); i++ {
+		t := 1 + r.Intn(5)
+		ops := []string{"c09 open tcp 0", "c09 speer 1", "c09 handler 10"}
+		if r.Intn(2) == 0 {
+			ops = append(ops, "c09 send router 1 1")
+		}
+		if r.Intn(4) == 0 {
+			// the survivor knows the tree already: nothing has to be asked for
+			ops = append(ops, fmt.Sprintf("c09 treesend %d 1", t))
+		}
+		ops = append(ops, "c09 down 1")
+		for k := 1 + r.Intn(2); k > 0; k-- {
+			ops = append(ops, fmt.Sprintf("c09 orphanmsg %d 1", t))
+		}
+		if r.Intn(3) == 0 {
+			ops = append(ops, "c09 send raw 1 1") // towards the dead sender: an error
+		}
+		ops = append(ops, "c09 up 1", fmt.Sprintf("c09 treesend %d 1", t))
+		if r.Intn(2) == 0 {
+			ops = append(ops, fmt.Sprintf("c09 treesend %d 1", t), "c09 conns 1")
+		}
+		if r.Intn(3) == 0 {
+			ops = append(ops, "c09 down 1", fmt.Sprintf("c09 orphanmsg %d 1", t), "c09 conns 1")
+		}
+		emit("treereq-tcp", ops...)
+	}
+	// in-memory transport: the survivor's sends wait for room in the queues of a busy peer when that
+	// peer shuts down
+	for i := 0; i < c.Pick(6, 60); i++ {
+		ops := []string{"c09 open local 0,1,2", "c09 handler 10"}
+		if r.Intn(2) == 0 {
+			ops = append(ops, "c09 send router 1 1")
+		}
+		ops = append(ops, fmt.Sprintf("c09 backlog 1 %d %d", 330+r.Intn(60), 24+r.Intn(40)), "c09 conns 1",
+			"c09 send router 2 1", "c09 send router 1 1", "c09 up 1", "c09 send router 1 2", "c09 conns 1")
+		emit("backlog-local", ops...)
+	}
 	// stale entries on the in-memory transport (a write on them fails deterministically): the
 	// survivor's receive loops are paused, a victim it is connected to dies and comes back, the
 	// next sends must reconnect — once per message — and deliver
